@@ -270,6 +270,9 @@ func vC07LabLocal(l *vC07Lab, r *rand.Rand, cnt int, scratch string, emit func(m
 		}
 		if len(ownAsked) > 0 && goFail == "" {
 			goFail = "a query was sent to one of this machine's own addresses: " + strings.Join(ownAsked, ",")
+			if !strings.HasPrefix(ownAsked[0], strings.ToLower(qs)) {
+				goFail += " (sent by an earlier scenario's resolver and delivered after that scenario was judged)"
+			}
 		}
 		crc := -1
 		var repAns []string
